@@ -514,7 +514,7 @@ func c06RunG(t *testing.T, rec *vRecorder, stream string, sc c06GScenario) {
 		}
 		// a pull between two live copies must leave a live document
 		var liveBefore []bool
-		if s.Kind == "pull" {
+		if s.Kind == "pull" && s.RS.Kind != "nil" { // a resolver that answers null ASKS for a delete
 			for _, d := range e.docs {
 				x, y := e.observe(s.Side, d), e.observe(1, d)
 				liveBefore = append(liveBefore, x.Exists && !x.Deleted && y.Exists && !y.Deleted)
@@ -523,7 +523,7 @@ func c06RunG(t *testing.T, rec *vRecorder, stream string, sc c06GScenario) {
 		if !r.do(s) {
 			break
 		}
-		if s.Kind == "pull" {
+		if s.Kind == "pull" && liveBefore != nil {
 			for i, d := range e.docs {
 				if x := e.observe(s.Side, d); liveBefore[i] && (!x.Exists || x.Deleted) {
 					rec.Fail("live_pull_keeps_document", "vv:live-live-pull-left-tombstone", map[string]any{"protocol": c06Proto(true), "scenario": sc.name, "steps": append([]string{}, r.descs...)},
